@@ -131,10 +131,25 @@ func Choice(name string, n int, idx ...int) int { return Int(name, idx...) }
 // Concretize forks one path per value of x in [lo,hi].
 func Concretize(x, lo, hi int) int { return x }
 
+// Thorough reports whether the thorough tier is running (harnesses use it to pick larger bounds).
+func Thorough() bool { return os.Getenv("VERIF_TIER") == "thorough" }
+
 func Unroll(n int)            {}
 func Note(s string)           {}
 func Config(key, val string)  {}
 func Observe(name string, v int64) {}
+
+// Ghost logs are kept by the engine's stubs (atomic operations, display calls ...); natively they are empty.
+func GhostLen(name string) int           { return 0 }
+func GhostCount(name, prefix string) int { return 0 }
+func GhostReset(name string)             {}
+
+// SetClosureInt / GetClosureInt give harnesses access to a variable captured by a closure (engine only):
+// used to start an inductive step from an arbitrary closure state. Natively unavailable.
+func SetClosureInt(f interface{}, name string, v int)       { panic("zzverif: closure state is engine-only") }
+func GetClosureInt(f interface{}, name string) int           { panic("zzverif: closure state is engine-only") }
+func SetClosureFloat(f interface{}, name string, v float64) { panic("zzverif: closure state is engine-only") }
+func GetClosureFloat(f interface{}, name string) float64     { panic("zzverif: closure state is engine-only") }
 
 // Time builds a time.Time from a nanosecond instant (symbolically: the engine's time model).
 func Time(ns int64) time.Time { return time.Unix(0, ns) }
